@@ -53,7 +53,7 @@ type RTScale struct {
 // DefaultScale returns the scale of the shared round-trip workload.
 func DefaultScale(thorough bool) RTScale {
 	if thorough {
-		return RTScale{StructCap: 150, Singles: 40, Extreme: 40, Random: 80, Runs: 40, Boundary: 30, Huge: 2, Compositions: 7, Defaults: 3100, Big: 9000,
+		return RTScale{StructCap: 150, Singles: 40, Extreme: 100, Random: 250, Runs: 100, Boundary: 60, Huge: 2, Compositions: 7, Defaults: 3100, Big: 9000,
 			Codecs: []int{0, 1, 2}, StructPages: []int{1, 2, 3, 7, 1000}, MaxRandomRecs: 200, MaxRunsRecs: 600, MaxExtremeRecs: 60}
 	}
 	return RTScale{StructCap: 60, Singles: 12, Extreme: 6, Random: 10, Runs: 6, Boundary: 4, Huge: 1, Compositions: 5, Defaults: 2100, Big: 5000,
